@@ -61,10 +61,12 @@ struct DenseLU {
     int n = 0; std::vector<ld> a; std::vector<int> piv; bool ok = true;
     void factor(const std::vector<std::vector<ld>> &D) {
         n = D.size(); a.assign(n * n, 0); piv.resize(n); ok = true;
-        for (int i = 0; i < n; ++i) for (int j = 0; j < n; ++j) a[i * n + j] = D[i][j];
+        ld amax = 0;
+        for (int i = 0; i < n; ++i) for (int j = 0; j < n; ++j) { a[i * n + j] = D[i][j]; amax = std::max(amax, fabsl(D[i][j])); }
         for (int k = 0; k < n; ++k) {
             int p = k; for (int i = k + 1; i < n; ++i) if (fabsl(a[i * n + k]) > fabsl(a[p * n + k])) p = i;
-            piv[k] = p; if (a[p * n + k] == 0) { ok = false; return; }
+            // a (nearly) vanishing pivot: the system is singular or too ill-conditioned for a 1e-9 verdict -> not judged
+            piv[k] = p; if (!(fabsl(a[p * n + k]) > 1e-6L * amax)) { ok = false; return; }
             if (p != k) for (int j = 0; j < n; ++j) std::swap(a[k * n + j], a[p * n + j]);
             for (int i = k + 1; i < n; ++i) { ld l = a[i * n + k] /= a[k * n + k]; if (l != 0) for (int j = k + 1; j < n; ++j) a[i * n + j] -= l * a[k * n + j]; }
         }
@@ -281,7 +283,7 @@ static void mode_schur() {
     int stride = vr::thorough() ? 1 : 3;
     for (unsigned km = 0; km < 512; km += stride) {
         auto P = vr::mk_pattern(3, 3, km, 1, false);
-        for (size_t i = 0; i < P->nrows; ++i) for (ptrdiff_t p = P->ptr[i]; p < P->ptr[i + 1]; ++p) P->val[p] = (P->col[p] == (ptrdiff_t)i) ? 3 + ((i + 1) % 2 == 0 ? 0 : 1) * 0 + (i % 2) : vr::pat_val(i, P->col[p], 1);
+        for (size_t i = 0; i < P->nrows; ++i) for (ptrdiff_t p = P->ptr[i]; p < P->ptr[i + 1]; ++p) P->val[p] = (P->col[p] == (ptrdiff_t)i) ? (double)(3 + (int)(i % 2)) : (double)vr::pat_val((int)i, (int)P->col[p], 1);
         for (int m = 1; m < 7; ++m) {
             std::vector<char> pm = {(char)(m & 1), (char)((m >> 1) & 1), (char)((m >> 2) & 1)};
             // Kuu needs a stored diagonal for the inverted-diagonal variant and a non-zero row for simplec
@@ -373,23 +375,39 @@ static void mode_schurO() {
     }
 }
 
-// pattern strings through the real parser, each in a child with an alarm
+// pattern strings through the real parser, each in its own child with an alarm (all children run
+// concurrently: a parser that never returns costs one alarm period in total)
 static void mode_pattern() {
     const int As[] = {0, 1, 2, 3, 5, 10, 12}, Bs[] = {1, 2, 3, 4, 10, 12}, Ns[] = {1, 6, 13, 20};
+    struct Job { std::string pat; int kind, a, b, n; pid_t pid; int fd; };
+    std::vector<Job> jobs;
     for (int kind : {37, 60, 62}) for (int a : As) for (int b : Bs) for (int n : Ns) {
         if (kind != 37 && b != 1) continue;
         std::string pat = kind == 37 ? "%" + std::to_string(a) + ":" + std::to_string(b) : std::string(1, (char)kind) + std::to_string(a);
-        ChildRes r = in_child([&]() {
+        jobs.push_back(Job{pat, kind, a, b, n, 0, -1});
+    }
+    std::cout << std::flush;
+    for (auto &j : jobs) {
+        int fd[2]; if (pipe(fd)) { perror("pipe"); exit(2); }
+        pid_t pid = fork();
+        if (pid == 0) {
+            close(fd[0]); alarm(5);
             vr::obj o;
             try {
-                boost::property_tree::ptree pt; pt.put("pmask_size", n); pt.put("pmask_pattern", pat);
+                boost::property_tree::ptree pt; pt.put("pmask_size", j.n); pt.put("pmask_pattern", j.pat);
                 Schur::params prm(pt);
                 o.str("st", "ok").ints("mask", prm.pmask);
             } catch (const std::exception &e) { o.str("st", "exc").str("what", e.what()).raw("mask", "[]"); }
-            return o.done();
-        }, 3);
-        vr::obj o; o.str("k", "pattern").str("pattern", pat).i("kind", kind).i("a", a).i("b", b).i("n", n).b("hang", r.hang).b("crash", r.crash);
-        o.raw("res", (r.hang || r.crash || r.text.empty()) ? std::string("{\"st\":\"") + (r.hang ? "hang" : "crash") + "\",\"mask\":[]}" : r.text);
+            std::string s = o.done(); ssize_t w = write(fd[1], s.data(), s.size()); (void)w; _exit(0);
+        }
+        close(fd[1]); j.pid = pid; j.fd = fd[0];
+    }
+    for (auto &j : jobs) {
+        std::string text; char buf[4096]; ssize_t k; while ((k = read(j.fd, buf, sizeof buf)) > 0) text.append(buf, k); close(j.fd);
+        int st = 0; waitpid(j.pid, &st, 0);
+        bool hang = WIFSIGNALED(st) && WTERMSIG(st) == SIGALRM, crash = (WIFSIGNALED(st) && !hang) || (WIFEXITED(st) && WEXITSTATUS(st) != 0);
+        vr::obj o; o.str("k", "pattern").str("pattern", j.pat).i("kind", j.kind).i("a", j.a).i("b", j.b).i("n", j.n).b("hang", hang).b("crash", crash);
+        o.raw("res", (hang || crash || text.empty()) ? std::string("{\"st\":\"") + (hang ? "hang" : "crash") + "\",\"mask\":[]}" : text);
         vr::emit(o.done());
     }
 }
